@@ -21,7 +21,12 @@
 (* and their direct solution on the non-absorbing states only (QDef, MDef1;   *)
 (* DESIGN.md A.6).  Irreducibility makes the solution unique.                 *)
 (*                                                                            *)
-(* States are 1..N here and 0..N-1 in Python.                                 *)
+(* States are 1..N here and 0..N-1 in Python.  src and snk are SETS: a printed *)
+(* case lists them in increasing order, but every listing of the same sets     *)
+(* (any order, any integer container) is the same input with the same expected *)
+(* values -- the driver replays each case with several listings.  Chains with  *)
+(* about a thousand states: LineChain.tla (closed forms checked against the    *)
+(* first-step equations below).                                                *)
 EXTENDS Integers, Sequences, FiniteSets, TLC, Json, Rational
 
 CONSTANTS N,        \* number of states
